@@ -111,6 +111,107 @@ func runStaged(c scase) string {
 	return kit.Res(crashed, err, kit.List(kit.Ints(outs), kit.I(int64(total))))
 }
 
+// Two profiles alive at the same time, queried in turn (a chart next to a run, the stages of a
+// config file): each answers from its own stages, start and query times alone.
+func runStagedPair(a, b scase) (string, string) {
+	type inst struct {
+		rate  func(time.Time) int
+		calc  *staged.RateCalculator
+		total time.Duration
+		outs  []int64
+		err   error
+		crash bool
+	}
+	build := func(c scase) *inst {
+		in := &inst{}
+		parts := make([]string, len(c.stages))
+		for i, s := range c.stages {
+			parts[i] = fmt.Sprintf("%s:%d", time.Duration(s[0]).String(), s[1])
+		}
+		in.crash, _ = kit.Guard(func() {
+			var st *time.Time
+			if c.start != nil {
+				t := time.Unix(0, *c.start)
+				st = &t
+			}
+			if c.direct {
+				stages, e := staged.ParseStages(strings.Join(parts, ","))
+				if e != nil {
+					in.err = e
+					return
+				}
+				in.calc = staged.NewRateCalculator(stages, st)
+				in.rate = in.calc.Rate
+				return
+			}
+			rates, e := staged.CalculateStagedRate(0, time.Second, strings.Join(parts, ","), "none", st)
+			if e != nil {
+				in.err = e
+				return
+			}
+			in.total = rates.Duration
+			in.rate = rates.Rate
+		})
+		return in
+	}
+	ia, ib := build(a), build(b)
+	for k := 0; k < max(len(a.ts), len(b.ts)); k++ {
+		for _, pr := range []struct {
+			in *inst
+			c  scase
+		}{{ia, a}, {ib, b}} {
+			if k < len(pr.c.ts) && pr.in.rate != nil && !pr.in.crash {
+				in, t := pr.in, pr.c.ts[k]
+				crashed, _ := kit.Guard(func() { in.outs = append(in.outs, int64(in.rate(time.Unix(0, t)))) })
+				in.crash = in.crash || crashed
+			}
+		}
+	}
+	res := func(in *inst) string {
+		if in.calc != nil && !in.crash {
+			in.total = in.calc.MaxDuration()
+		}
+		return kit.Res(in.crash, in.err, kit.List(kit.Ints(in.outs), kit.I(int64(in.total))))
+	}
+	return res(ia), res(ib)
+}
+
+func runRampPair(a, b rcase) (string, string) {
+	type inst struct {
+		rate  func(time.Time) int
+		outs  []int64
+		err   error
+		crash bool
+	}
+	build := func(c rcase) *inst {
+		in := &inst{}
+		in.crash, _ = kit.Guard(func() {
+			rates, e := ramp.CalculateRampRate(fmt.Sprintf("%d/1s", c.from), fmt.Sprintf("%d/1s", c.to), "none", time.Duration(c.dur), 0)
+			if e != nil {
+				in.err = e
+				return
+			}
+			in.rate = rates.Rate
+		})
+		return in
+	}
+	ia, ib := build(a), build(b)
+	for k := 0; k < max(len(a.ts), len(b.ts)); k++ {
+		for _, pr := range []struct {
+			in *inst
+			c  rcase
+		}{{ia, a}, {ib, b}} {
+			if k < len(pr.c.ts) && pr.in.rate != nil && !pr.in.crash {
+				in, t := pr.in, pr.c.ts[k]
+				crashed, _ := kit.Guard(func() { in.outs = append(in.outs, int64(in.rate(time.Unix(0, t)))) })
+				in.crash = in.crash || crashed
+			}
+		}
+	}
+	res := func(in *inst) string { return kit.Res(in.crash, in.err, kit.Ints(in.outs)) }
+	return res(ia), res(ib)
+}
+
 func genDur(r *kit.Rand) int64 {
 	switch r.Intn(9) {
 	case 0:
@@ -303,6 +404,23 @@ func TestC10(t *testing.T) {
 		c := genRamp(r)
 		o.Case("ramp", []string{kit.I(c.from), kit.I(c.to), kit.I(c.dur), kit.Ints(c.ts)}, runRamp(c), "ramp", "nt")
 	}
+	for i := 0; i < kit.N(150, 2000); i++ {
+		a, b := genStaged(r), genStaged(r)
+		if i%3 == 0 {
+			b.stages, b.direct = a.stages, a.direct // the same stages, other start / query times
+		}
+		ra, rb := runStagedPair(a, b)
+		o.Case("staged", a.args(), ra, "staged", "pair", "nt")
+		o.Case("staged", b.args(), rb, "staged", "pair", "nt")
+		x, y := genRamp(r), genRamp(r)
+		if i%3 == 0 {
+			y.from, y.to, y.dur = x.from, x.to, x.dur
+		}
+		rx, ry := runRampPair(x, y)
+		o.Case("ramp", []string{kit.I(x.from), kit.I(x.to), kit.I(x.dur), kit.Ints(x.ts)}, rx, "ramp", "pair", "nt")
+		o.Case("ramp", []string{kit.I(y.from), kit.I(y.to), kit.I(y.dur), kit.Ints(y.ts)}, ry, "ramp", "pair", "nt")
+	}
+	o.Count("instances", "pairs alive at once, queried in turn")
 }
 
 // ---------------------------------------------------------------- f64 primitives
